@@ -112,6 +112,8 @@ func runC17(p *Prog, r *Report) {
 	if c == nil {
 		return
 	}
+	// ---- R5: a clone owns its buckets (reads of a snapshot clean up the snapshot, not the live counter) ----
+	r.Floor("C17.R5", checkSnapshots(p, r, "C17.R5", func(n *types.Named) bool { return n == c.typ }), 1, "snapshot methods of the rolling counter")
 	R := "fld(p0)." + c.resField
 	// ---- R1: units of the slot->bucket mapping ----
 	grid := ""
